@@ -61,9 +61,9 @@ func family(r *rand.Rand, o NameOpts) []string {
 		cands = append(cands, "é", "日本")
 	}
 	D := pick(r, cands)
-	inner := []string{"x", "y", "main.go", "sub/f", "sub/g h", "z-last", "a.b"}
+	inner := []string{"x", "y", "main.go", "sub/f", "sub/g h", "z-last", "a.b", "X", "Main.go", "Sub/f"}
 	if !o.Space {
-		inner = []string{"x", "y", "main.go", "sub/f", "sub/g", "z-last", "a.b"}
+		inner = []string{"x", "y", "main.go", "sub/f", "sub/g", "z-last", "a.b", "X", "Main.go", "Sub/f"}
 	}
 	var out []string
 	nIn := 1 + r.IntN(3)
